@@ -46,7 +46,7 @@ BE = 'verilog'
 
 def streams(ck):
   quick = ck.tier == 'quick'
-  return {'clean': 70 if quick else 1600, 'finding_each': 3 if quick else 12, 'ncycles': 5 if quick else 8,
+  return {'clean': 180 if quick else 2600, 'clean_c12': 120 if quick else 1500, 'finding_each': 3 if quick else 12, 'ncycles': 5 if quick else 8,
           'nstores': 6 if quick else 16, 'batch': 24}
 
 def run(ck):
@@ -61,7 +61,7 @@ def run(ck):
       for k in range(cfg['finding_each']): corpus.append(G.gen_fixed(random.Random(rng.getrandbits(64)), BE, fid))
   U.run_batch(ck, BE, corpus, stats, cfg['ncycles'] + 2, cfg['nstores'])
   # ---- labelled streams of the known findings
-  fd = []
+  fd = [dict(w) for w in K.WITNESSES if BE in w['backends']]      # canonical witnesses first, then randomised instances
   for fid, (bes, _) in G.FINDING_STREAMS.items():
     if BE not in bes: continue
     for k in range(cfg['finding_each']):
